@@ -148,6 +148,14 @@ func (g *Gen) Next() *eng.Tx {
 				}
 			}
 		}
+		// address spellings: sometimes one address field of the transaction is sent in bech32's
+		// all-upper-case spelling (same account, different string)
+		if !g.quiet && g.R.Float64() < 0.04 {
+			if fs := eng.AddrFields(tx.Msgs); len(fs) > 0 {
+				p := fs[g.R.Intn(len(fs))]
+				*p = strings.ToUpper(*p)
+			}
+		}
 		return tx
 	}
 	return nil
